@@ -13,7 +13,7 @@ pkgrel=$(grep -m1 '^+++ b/' "$ad/patch.diff" | sed 's|^+++ b/||')
 demorel=$(cd "$wt" && git status --porcelain | awk '$1=="??"{print $2}' | grep "$(basename "$demo")" | head -1)
 [ -n "$demorel" ] || demorel="$(dirname "$pkgrel")/$(basename "$demo")"
 demodir=$(dirname "$demorel")
-runname=$(grep -o 'func Test[A-Za-z0-9_]*' "$demo" | head -1 | sed 's/func //')
+runname=$(grep -o 'func Test[A-Za-z0-9_]*' "$demo" | sed 's/func //' | paste -sd'|')
 cd "$wt" || exit 2
 git checkout -q -- . ; git clean -fdq
 cp "$demo" "$demorel"
